@@ -78,8 +78,13 @@ pub(super) fn parse(mut s: &str) -> Result<Genotype, ParseError> {
 }
 
 fn next_allele<'a>(s: &mut &'a str) -> &'a str {
-    let (t, rest) = match s.chars().skip(1).position(is_phasing_indicator) {
-        Some(i) => s.split_at(i + 1),
+    // Byte offsets, not character counts: the input is not necessarily ASCII.
+    let (t, rest) = match s
+        .char_indices()
+        .skip(1)
+        .find(|(_, c)| is_phasing_indicator(*c))
+    {
+        Some((i, _)) => s.split_at(i),
         None => s.split_at(s.len()),
     };
 
@@ -95,9 +100,12 @@ fn is_phasing_indicator(c: char) -> bool {
 fn parse_first_allele(s: &str) -> Result<(Option<usize>, Option<Phasing>), allele::ParseError> {
     use super::allele::{parse_phasing, parse_position};
 
-    match parse_phasing(&s[..1]) {
+    // A phasing indicator is a single ASCII character.
+    let (raw_phasing, raw_position) = s.split_at_checked(1).unwrap_or((s, ""));
+
+    match parse_phasing(raw_phasing) {
         Ok(phasing) => {
-            let position = parse_position(&s[1..])?;
+            let position = parse_position(raw_position)?;
             Ok((position, Some(phasing)))
         }
         Err(_) => {
